@@ -237,7 +237,7 @@ Theorem from_i64_spec v : - 2 ^ 63 <= v < 2 ^ 63 ->
   0 <= from_i64_u128 v < 2 ^ 128 /\ from_i64_u128 v mod P = v mod P /\ from_i64_u128_ok v = true.
 Proof.
   intros Hv. unfold from_i64_u128, from_i64_u128_ok, R2, P. word_unfold.
-  destruct (0 <=? v) eqn:E; repeat split; lia.
+  repeat match goal with |- context [if ?c then _ else _] => destruct c eqn:? end; repeat split; lia.
 Qed.
 
 Theorem to_i64_spec a : canon a ->
